@@ -43,11 +43,6 @@ structure DState where
 def DState.init : DState :=
   { table := [], mr := Run.init State.fresh NE NL, sr := Run.init Spec.SState.fresh NE NL }
 
-def lookupScript (t : List ((Nat × Nat × Nat) × List Action)) (l s k : Nat) : List Action :=
-  match t.find? (fun x => x.1 == (l, s, k)) with
-  | some x => x.2
-  | none => []
-
 def digit (c : Char) (bound : Nat) : Option Nat :=
   if '0' ≤ c ∧ c ≤ '9' ∧ c.toNat - 48 < bound then some (c.toNat - 48) else none
 
@@ -132,7 +127,7 @@ def stepLine (d : DState) (ws : List String) : DState × String :=
     match top with
     | none => (d, "bad-op")
     | some as =>
-      let P : Prog := { script := lookupScript d.table }
+      let P : Prog := Prog.ofTable d.table
       let mr := exec machine P FUEL { d.mr with log := [] } (.acts as)
       let sr := exec Spec.machine P FUEL { d.sr with log := [] } (.acts as)
       let d' := { d with mr := mr, sr := sr }
